@@ -265,6 +265,8 @@ def make_segment(read, seqs, header):
     a.mapping_quality = read.get("mapq", 60)
     a.query_sequence = read.get("seq_override") or "".join(q)
     a.cigartuples = merged
+    if read.get("no_seq"):
+        a.query_sequence = None          # SEQ '*', as aligners write secondary records
     for k, v in read.get("tags", {}).items():
         a.set_tag(k, v)
     return a
